@@ -1,7 +1,228 @@
-From Coq Require Import ZArith NArith List Bool Lia.
+(* C17 -- proofs about Router/Model.v against Router/Spec.v. *)
+From Coq Require Import ZArith NArith List Bool Lia Permutation.
 From GoCoap Require Import Base.Bytes Router.Model Router.Spec.
 Import ListNotations.
 Open Scope Z_scope.
 
-Lemma filter_path_nonempty p : filter_path p <> [].
-Proof. destruct p; cbn; discriminate. Qed.
+(* ------------------------------------------------------------------ *)
+(** * list arithmetic on prefixes *)
+
+Lemma firstn_add {A} (i j : nat) (s : list A) :
+  firstn (i + j) s = firstn i s ++ firstn j (skipn i s).
+Proof.
+  revert s; induction i as [|i IH]; intros s; [reflexivity|].
+  destruct s as [|x s]; cbn [Nat.add firstn skipn app].
+  - now rewrite firstn_nil.
+  - now rewrite IH.
+Qed.
+
+Lemma firstn_app_exact {A} (u v : list A) : firstn (length u) (u ++ v) = u.
+Proof. induction u as [|x u IH]; cbn; [reflexivity| now rewrite IH]. Qed.
+Lemma skipn_app_exact {A} (u v : list A) : skipn (length u) (u ++ v) = v.
+Proof. induction u as [|x u IH]; cbn; [reflexivity| exact IH]. Qed.
+
+Lemma prefix_split {A} (n : nat) (s u v : list A) :
+  (n <= length s)%nat -> firstn n s = u ++ v ->
+  n = (length u + length v)%nat /\ firstn (length u) s = u /\
+  firstn (length v) (skipn (length u) s) = v /\ (length v <= length (skipn (length u) s))%nat.
+Proof.
+  intros Hn E.
+  assert (Hlen : n = (length u + length v)%nat).
+  { rewrite <- app_length, <- E, firstn_length. lia. }
+  assert (Hs : s = (u ++ v) ++ skipn n s) by (rewrite <- E; symmetry; apply firstn_skipn).
+  split; [exact Hlen|].
+  set (t := skipn n s) in Hs. clearbody t. subst s. clear E Hn.
+  rewrite <- app_assoc.
+  rewrite firstn_app_exact, skipn_app_exact, firstn_app_exact.
+  repeat split; try reflexivity.
+  rewrite app_length. lia.
+Qed.
+
+(* ------------------------------------------------------------------ *)
+(** * denotational language of the modelled expressions *)
+
+Inductive L : re -> str -> Prop :=
+| L_eps : L Eps []
+| L_sym neg rs c : sym_mem neg rs c = true -> L (Sym neg rs) [c]
+| L_cat a b u v : L a u -> L b v -> L (Cat a b) (u ++ v)
+| L_altl a b u : L a u -> L (Alt a b) u
+| L_altr a b u : L b u -> L (Alt a b) u
+| L_star0 a : L (Star a) []
+| L_stars a u v : L a u -> L (Star a) v -> L (Star a) (u ++ v).
+
+Lemma L_nul_inv s : ~ L Nul s.
+Proof. intros H; inversion H. Qed.
+Lemma L_eps_inv s : L Eps s -> s = [].
+Proof. intros H; inversion H; reflexivity. Qed.
+Lemma L_sym_inv neg rs s : L (Sym neg rs) s -> exists c, s = [c] /\ sym_mem neg rs c = true.
+Proof. intros H; inversion H; subst; eauto. Qed.
+Lemma L_cat_inv a b s : L (Cat a b) s -> exists u v, s = u ++ v /\ L a u /\ L b v.
+Proof. intros H; inversion H; subst; eauto. Qed.
+Lemma L_alt_inv a b s : L (Alt a b) s -> L a s \/ L b s.
+Proof. intros H; inversion H; subst; auto. Qed.
+
+(* a non-empty word of a star starts with a non-empty word of the body *)
+Lemma L_star_split a w : L (Star a) w ->
+  w = [] \/ exists u v, u <> [] /\ w = u ++ v /\ L a u /\ L (Star a) v.
+Proof.
+  intros H. remember (Star a) as r eqn:Er.
+  induction H as [| | | | | a0 | a0 u v Hu _ Hv IHv]; try discriminate.
+  - now left.
+  - injection Er as ->. destruct u as [|x u].
+    + cbn. apply IHv. reflexivity.
+    + right. exists (x :: u), v. repeat split; try assumption. discriminate.
+Qed.
+
+Lemma nullable_iff r : nullable r = true <-> L r [].
+Proof.
+  induction r as [| |neg rs|a IHa b IHb|a IHa b IHb|a IHa]; cbn [nullable].
+  - split; [discriminate| intros H; inversion H].
+  - split; [constructor|reflexivity].
+  - split; [discriminate| intros H; inversion H].
+  - rewrite andb_true_iff, IHa, IHb. split.
+    + intros [Ha Hb]. change (@nil Z) with (@nil Z ++ []). now constructor.
+    + intros H. apply L_cat_inv in H as (u & v & E & Hu & Hv).
+      symmetry in E. apply app_eq_nil in E as [-> ->]. now split.
+  - rewrite orb_true_iff, IHa, IHb. split.
+    + intros [H|H]; [now apply L_altl| now apply L_altr].
+    + apply L_alt_inv.
+  - split; [constructor|reflexivity].
+Qed.
+
+Lemma deriv_iff c r : forall s, L (deriv c r) s <-> L r (c :: s).
+Proof.
+  induction r as [| |neg rs|a IHa b IHb|a IHa b IHb|a IHa]; intros s; cbn [deriv].
+  - split; intros H; inversion H.
+  - split; intros H; inversion H.
+  - destruct (sym_mem neg rs c) eqn:Em.
+    + split; intros H.
+      * apply L_eps_inv in H as ->. now constructor.
+      * apply L_sym_inv in H as (c' & E & _). injection E as _ ->. constructor.
+    + split; intros H; [inversion H|].
+      apply L_sym_inv in H as (c' & E & Hm). injection E as <- _. congruence.
+  - assert (Hcat : L (Cat (deriv c a) b) s -> L (Cat a b) (c :: s)).
+    { intros H. apply L_cat_inv in H as (u & v & -> & Hu & Hv).
+      apply IHa in Hu. change (c :: u ++ v) with ((c :: u) ++ v). now constructor. }
+    destruct (nullable a) eqn:En.
+    + split; intros H.
+      * apply L_alt_inv in H as [H|H]; [now apply Hcat|].
+        apply IHb in H. apply nullable_iff in En.
+        change (c :: s) with ([] ++ c :: s). now constructor.
+      * apply L_cat_inv in H as (u & v & E & Hu & Hv).
+        destruct u as [|x u]; cbn in E.
+        -- subst v. apply L_altr. now apply IHb.
+        -- injection E as <- ->. apply L_altl. constructor; [now apply IHa|assumption].
+    + split; intros H; [now apply Hcat|].
+      apply L_cat_inv in H as (u & v & E & Hu & Hv).
+      destruct u as [|x u]; cbn in E.
+      * apply nullable_iff in Hu. congruence.
+      * injection E as <- ->. constructor; [now apply IHa|assumption].
+  - split; intros H.
+    + apply L_alt_inv in H as [H|H]; [apply L_altl; now apply IHa| apply L_altr; now apply IHb].
+    + apply L_alt_inv in H as [H|H]; [apply L_altl; now apply IHa| apply L_altr; now apply IHb].
+  - split; intros H.
+    + apply L_cat_inv in H as (u & v & -> & Hu & Hv). apply IHa in Hu.
+      change (c :: u ++ v) with ((c :: u) ++ v). now constructor.
+    + apply L_star_split in H as [H|(u & v & Hne & E & Hu & Hv)]; [discriminate|].
+      destruct u as [|x u]; [congruence|]. cbn in E. injection E as <- ->.
+      constructor; [now apply IHa|assumption].
+Qed.
+
+(* the derivative matcher decides the denotational language *)
+Theorem dmatch_correct : forall s r, dmatch r s = true <-> L r s.
+Proof.
+  induction s as [|c s IH]; intros r; cbn [dmatch].
+  - apply nullable_iff.
+  - rewrite IH. apply deriv_iff.
+Qed.
+
+Lemma L_lit l s : L (lit_re l) s <-> s = l.
+Proof.
+  revert s; induction l as [|c l IH]; intros s; cbn [lit_re].
+  - split; [apply L_eps_inv| intros ->; constructor].
+  - split.
+    + intros H. apply L_cat_inv in H as (u & v & -> & Hu & Hv).
+      apply L_sym_inv in Hu as (c' & -> & Hm). apply IH in Hv as ->.
+      assert (c' = c).
+      { unfold sym_mem, in_ranges in Hm. cbn in Hm.
+        destruct (c <=? c') eqn:E1; destruct (c' <=? c) eqn:E2; cbn in Hm; try discriminate.
+        apply Z.leb_le in E1. apply Z.leb_le in E2. lia. }
+      now subst.
+    + intros ->. change (c :: l) with ([c] ++ l). constructor; [|now apply IH].
+      constructor. unfold sym_mem, in_ranges. cbn. rewrite Z.leb_refl. reflexivity.
+Qed.
+
+(* ------------------------------------------------------------------ *)
+(** * the priority enumeration [ends] lists exactly the matched prefixes *)
+
+Lemma firstn_nil_len {A} (n : nat) (s : list A) : (n <= length s)%nat -> firstn n s = [] -> n = O.
+Proof.
+  intros Hn E. assert (H : length (firstn n s) = n) by (rewrite firstn_length; lia).
+  rewrite E in H. cbn in H. lia.
+Qed.
+
+Lemma star_ends_spec (f : str -> list nat) (a : re)
+  (Hf : forall s n, In n (f s) <-> (n <= length s)%nat /\ L a (firstn n s)) :
+  forall fuel s n, (length s < fuel)%nat ->
+    (In n (star_ends f fuel s) <-> (n <= length s)%nat /\ L (Star a) (firstn n s)).
+Proof.
+  induction fuel as [|k IH]; intros s n Hlt; [lia|].
+  cbn [star_ends]. rewrite in_app_iff, in_flat_map. split.
+  - intros [(i & Hi & Hin) | Hin].
+    + destruct i as [|i']; [destruct Hin|].
+      apply in_map_iff in Hin as (j & <- & Hj).
+      apply Hf in Hi as [Hile Hia].
+      apply IH in Hj as [Hjle Hjs]; [| rewrite skipn_length; lia].
+      rewrite skipn_length in Hjle. split; [lia|].
+      rewrite firstn_add. now constructor.
+    + destruct Hin as [<-|[]]. split; [lia|]. cbn. constructor.
+  - intros [Hn HL]. apply L_star_split in HL as [E | (u & v & Hne & E & Hu & Hv)].
+    + right. left. symmetry. now apply (firstn_nil_len n s).
+    + left. destruct (prefix_split n s u v Hn E) as (En & Eu & Ev & Hvl).
+      exists (length u). split.
+      * apply Hf. split; [lia|]. now rewrite Eu.
+      * assert (Hpos : exists m, length u = S m).
+        { destruct u as [|x u]; [congruence|]. cbn. eauto. }
+        destruct Hpos as [m Em]. rewrite Em. cbv iota beta. rewrite <- Em.
+        apply in_map_iff. exists (length v). split; [lia|].
+        apply IH; [rewrite skipn_length; lia|]. split; [exact Hvl|]. now rewrite Ev.
+Qed.
+
+Theorem ends_spec : forall r s n,
+  In n (ends r s) <-> (n <= length s)%nat /\ L r (firstn n s).
+Proof.
+  induction r as [| |neg rs|a IHa b IHb|a IHa b IHb|a IHa]; intros s n; cbn [ends].
+  - split; [intros []| intros [_ H]; inversion H].
+  - split.
+    + intros [<-|[]]. split; [lia|]. cbn. constructor.
+    + intros [Hn H]. apply L_eps_inv in H. left. symmetry. now apply (firstn_nil_len n s).
+  - destruct s as [|c s].
+    + split; [intros []|]. intros [Hn H]. cbn in Hn. assert (n = O) by lia. subst. cbn in H. inversion H.
+    + split.
+      * destruct (sym_mem neg rs c) eqn:Em; [|intros []].
+        intros [<-|[]]. split; [cbn; lia|]. cbn. now constructor.
+      * intros [Hn H]. apply L_sym_inv in H as (c' & E & Hm).
+        assert (Hl : length (firstn n (c :: s)) = n) by (rewrite firstn_length; lia).
+        rewrite E in Hl. cbn in Hl. subst n. cbn in E. injection E as ->.
+        rewrite Hm. now left.
+  - rewrite in_flat_map. split.
+    + intros (i & Hi & Hin). apply in_map_iff in Hin as (j & <- & Hj).
+      apply IHa in Hi as [Hile Hia]. apply IHb in Hj as [Hjle Hjb].
+      rewrite skipn_length in Hjle. split; [lia|]. rewrite firstn_add. now constructor.
+    + intros [Hn H]. apply L_cat_inv in H as (u & v & E & Hu & Hv).
+      destruct (prefix_split n s u v Hn E) as (En & Eu & Ev & Hvl).
+      exists (length u). split.
+      * apply IHa. split; [lia|]. now rewrite Eu.
+      * apply in_map_iff. exists (length v). split; [lia|]. apply IHb. split; [exact Hvl|]. now rewrite Ev.
+  - rewrite in_app_iff, IHa, IHb. split.
+    + intros [[Hn H]|[Hn H]]; (split; [exact Hn|]); [now apply L_altl| now apply L_altr].
+    + intros [Hn H]. apply L_alt_inv in H as [H|H]; [left|right]; now split.
+  - apply star_ends_spec; [exact IHa| lia].
+Qed.
+
+(* both stand-ins for Go's regexp agree: a complete match is found by the
+   enumeration iff the derivative matcher accepts *)
+Corollary ends_dmatch r s : In (length s) (ends r s) <-> dmatch r s = true.
+Proof.
+  rewrite ends_spec, dmatch_correct, firstn_all. split; [intros [_ H]; exact H| intros H; split; [lia|exact H]].
+Qed.
